@@ -42,11 +42,16 @@ Definition Good (st : rstate) (id : N) (rq : drequest) : Prop :=
 Definition sess_shape (cs : str * option session) : Prop :=
   match snd cs with Some ss => Forall shape (tr_reqs (ss_tracker ss)) | None => True end.
 
+(** [c] is the client id of a live connection subscribed to "$share/" ++ [name] *)
+Definition SubOk (st : rstate) (name c : str) : Prop :=
+  gkey_of (gpath name) = Some name /\
+  exists id subs, cli st id = Some c /\ subs_of st id = Some subs /\ set_mem str_eqb (gpath name) subs = true.
+
 Record MemInv (st : rstate) : Prop := {
   mi_req : forall id rq, HasReq st id rq -> Good st id rq;
   mi_grave : Forall sess_shape (r_graveyard st);
-  mi_sub : forall name c, gmem st name c ->
-    exists id subs, cli st id = Some c /\ subs_of st id = Some subs /\ set_mem str_eqb (gpath name) subs = true
+  mi_sub : forall name c, gmem st name c -> SubOk st name c;
+  mi_gk : NoDup (map fst (r_groups st))
 }.
 
 (* ------------------------------------------------------------------ group keys and paths *)
@@ -89,23 +94,25 @@ Record mfr (e : list (N * drequest)) (st st' : rstate) : Prop := {
   mf_cli : forall id, cli st' id = cli st id;
   mf_mem : forall name, mems st' name = mems st name;
   mf_sub : forall id, subs_of st' id = subs_of st id;
-  mf_grave : r_graveyard st' = r_graveyard st
+  mf_grave : r_graveyard st' = r_graveyard st;
+  mf_keys : map fst (r_groups st') = map fst (r_groups st)
 }.
 
 Lemma mfr_refl st : mfr [] st st.
 Proof. constructor; auto. Qed.
 
 Lemma mfr_weaken e e' st st' : incl e e' -> mfr e st st' -> mfr e' st st'.
-Proof. intros I [A B C D E]. constructor; auto. intros id rq H. destruct (A id rq H); auto. Qed.
+Proof. intros I [A B C D E K]. constructor; auto. intros id rq H. destruct (A id rq H); auto. Qed.
 
 Lemma mfr_trans e1 e2 a b c : mfr e1 a b -> mfr e2 b c -> mfr (e1 ++ e2) a c.
 Proof.
-  intros [A1 B1 C1 D1 E1] [A2 B2 C2 D2 E2]. constructor.
+  intros [A1 B1 C1 D1 E1 K1] [A2 B2 C2 D2 E2 K2]. constructor.
   - intros id rq H. destruct (A2 id rq H) as [H2 | H2]; [| right; apply in_or_app; now right].
     destruct (A1 id rq H2); [now left | right; apply in_or_app; now left].
   - intros id. now rewrite B2.
   - intros name. now rewrite C2.
   - intros id. now rewrite D2.
+  - congruence.
   - congruence.
 Qed.
 
@@ -123,19 +130,20 @@ Proof. unfold gmem. now intros ->. Qed.
 
 Lemma Good_mfr e st st' id rq : mfr e st st' -> Good st id rq -> Good st' id rq.
 Proof.
-  intros [_ B C _ _] [S M]. split; [exact S |]. intros name Hn. destruct (M name Hn) as (c & Hc & Hg).
+  intros [_ B C _ _ _] [S M]. split; [exact S |]. intros name Hn. destruct (M name Hn) as (c & Hc & Hg).
   exists c. rewrite B. split; [exact Hc |]. eapply gmem_mems; eauto.
 Qed.
 
 Lemma MemInv_mfr e st st' :
   MemInv st -> mfr e st st' -> (forall id rq, In (id, rq) e -> Good st id rq) -> MemInv st'.
 Proof.
-  intros [R G S] F He. pose proof F as [A B C D E]. constructor.
+  intros [R G S N] F He. pose proof F as [A B C D E KK]. constructor.
   - intros id rq H. eapply Good_mfr; [exact F |]. destruct (A id rq H); auto.
   - now rewrite E.
-  - intros name c Hg. destruct (S name c) as (id & subs & H1 & H2 & H3).
+  - intros name c Hg. destruct (S name c) as (K & id & subs & H1 & H2 & H3).
     { eapply gmem_mems; [| exact Hg]. now rewrite C. }
-    exists id, subs. rewrite B, D. auto.
+    split; [exact K |]. exists id, subs. rewrite B, D. auto.
+  - now rewrite KK.
 Qed.
 
 Lemma MemInv_mfr0 st st' : MemInv st -> mfr [] st st' -> MemInv st'.
@@ -161,6 +169,7 @@ Proof.
   - intros name. unfold mems. now rewrite E5.
   - intros id. unfold subs_of. now rewrite E7.
   - exact E6.
+  - now rewrite E5.
 Qed.
 
 (** only the requests change *)
@@ -169,10 +178,11 @@ Lemma mfr_reqs e st st' :
   r_obufs st' = r_obufs st -> r_groups st' = r_groups st -> r_conns st' = r_conns st ->
   r_graveyard st' = r_graveyard st -> mfr e st st'.
 Proof.
-  intros A B C D E. constructor; [exact A | | | | exact E].
+  intros A B C D E. constructor; [exact A | | | | exact E |].
   - intros id. unfold cli. now rewrite B.
   - intros name. unfold mems. now rewrite C.
   - intros id. unfold subs_of. now rewrite D.
+  - now rewrite C.
 Qed.
 
 Lemma HasReq_put_tracker st id t t' id' rq :
@@ -217,8 +227,15 @@ Proof.
 Qed.
 
 Lemma mfr_set_groups st gs :
-  (forall name, option_map g_clients (al_get str_eqb name gs) = mems st name) -> mfr [] st (set_r_groups st gs).
-Proof. intros Hm. constructor; try reflexivity; [intros id rq H; now left | exact Hm]. Qed.
+  (forall name, option_map g_clients (al_get str_eqb name gs) = mems st name) ->
+  map fst gs = map fst (r_groups st) -> mfr [] st (set_r_groups st gs).
+Proof. intros Hm Hk. constructor; try reflexivity; [intros id rq H; now left | exact Hm | exact Hk]. Qed.
+
+Lemma al_set_keys {V} k (v v' : V) m : al_get str_eqb k m = Some v -> map fst (al_set str_eqb k v' m) = map fst m.
+Proof.
+  induction m as [| [k1 v1] r IH]; cbn [al_get al_set map fst]; [discriminate |].
+  destruct (str_eqb k k1); cbn [map fst]; [reflexivity |]. intros H. now rewrite IH.
+Qed.
 
 Lemma mfr_set_notif st v : incl v (r_notif st) -> mfr [] st (set_r_notif st v).
 Proof.
